@@ -222,7 +222,12 @@ func srvBody(o srvOpts) func() {
 			if o.late == n || o.held == n {
 				continue
 			}
-			if o.attach[n] {
+			if o.attach[n] && o.defaultMux {
+				// a connection of the application's own making, served by the package defaults
+				if _, err := diam.NewConn(c, "peer", nil, nil); err != nil {
+					panic(err)
+				}
+			} else if o.attach[n] {
 				if _, err := diam.NewConn(c, "peer", mux, dict.Default); err != nil {
 					panic(err)
 				}
@@ -556,6 +561,56 @@ func c15Scenarios(tier string) []*Scenario {
 		}
 		out = append(out, &Scenario{Name: "faults/closenotify-active/" + fault + "@3", Body: srvBody(o), Check: check, Bound: b, Horizon: 20 * time.Second, Weight: 5,
 			Outcome: func(s *vs.Sched) string { return fmt.Sprintf("events=%d end=%v", len(srvSt.events), s.EndTime) }})
+	}
+	// the package defaults: connection A was handed to diam.NewConn with a nil handler and a nil
+	// dictionary, connection B is accepted by a zero Server{}; both are served by DefaultServeMux, and
+	// the undecodable input on A is reported on diam.ErrorReports()
+	for pos := 1; pos <= 3; pos++ {
+		pos := pos
+		o := srvOpts{names: []string{"A", "B"}, nmsg: 2, pattern: map[string]string{"B": "each"}, panicAt: map[string]int{}, reports: true,
+			attach: map[string]bool{"A": true}, defaultMux: true}
+		o.fault = func(name string, c *vnet.Conn, ci int) bool {
+			if name != "A" {
+				return false
+			}
+			for s := 0; s < pos-1; s++ {
+				c.Deliver(srvReq(ci, s))
+			}
+			c.Deliver(c15Garbage(pos, uint32(ci+1)))
+			return true
+		}
+		check := func(s *vs.Sched) string {
+			st := srvSt
+			v, handled := srvAnalyse(st, o.names)
+			if handled["B"] != 2 || fmt.Sprint(answersOn(st.conns["B"])) != "[1 2]" {
+				v = append(v, fmt.Sprintf("healthy connection B: %d of 2 requests handled, answers %v", handled["B"], answersOn(st.conns["B"])))
+			}
+			if st.conns["B"].Closed {
+				v = append(v, "healthy connection B was closed")
+			}
+			if !st.conns["A"].Closed {
+				v = append(v, "the faulty connection's transport was not closed")
+			}
+			if handled["A"] != pos-1 {
+				v = append(v, fmt.Sprintf("faulty connection: %d handlers completed before the fault at position %d", handled["A"], pos))
+			}
+			if st.reports == 0 {
+				v = append(v, "undecodable input on a connection served by the package defaults (diam.NewConn with a nil handler): no error report was offered on diam.ErrorReports()")
+			}
+			if st.served {
+				v = append(v, "Serve returned")
+			}
+			for _, p := range s.Panics() {
+				v = append(v, "panic escaped: "+p)
+			}
+			return strings.Join(v, " | ")
+		}
+		b := 1
+		if tier == "thorough" {
+			b = 2
+		}
+		out = append(out, &Scenario{Name: fmt.Sprintf("faults/package-defaults/garbage@%d", pos), Body: srvBody(o), Check: check, Bound: b, Horizon: 20 * time.Second, Weight: 5,
+			Outcome: func(s *vs.Sched) string { return fmt.Sprintf("events=%d reports=%d end=%v", len(srvSt.events), srvSt.reports, s.EndTime) }})
 	}
 	for _, fault := range []string{"panic", "garbage", "cut"} {
 		b := 1
